@@ -1,16 +1,28 @@
 //! Codec-level (L1) checks. Each `run` returns a Report; the `check` driver turns it into verdicts.
 
+#[cfg(feature = "l1")]
 pub mod c03;
+#[cfg(feature = "l1")]
 pub mod c04;
+#[cfg(feature = "l1")]
 pub mod c05;
+#[cfg(feature = "l1")]
 pub mod c06;
+#[cfg(feature = "l1")]
 pub mod c07;
+#[cfg(feature = "l1")]
 pub mod c09;
+#[cfg(feature = "l1")]
 pub mod c10;
+#[cfg(feature = "l1")]
 pub mod c11;
+#[cfg(feature = "l1")]
 pub mod c12;
+#[cfg(feature = "l1")]
 pub mod c13;
+#[cfg(feature = "l1")]
 pub mod c14;
+#[cfg(feature = "l1")]
 pub mod mirirun;
 
 use crate::report::Report;
@@ -65,6 +77,7 @@ pub fn finish(a: &Args, r: Report) {
     }
 }
 
+#[cfg(feature = "l1")]
 /// A fixed "now" for codec-level work: pins both wall-clock readers of /repo on this thread.
 pub fn pin_clock(now: u64) {
     octo_squirrel::verif::set_thread_clock(Some(now as i64));
